@@ -228,6 +228,26 @@ func runCase(t *testing.T, run *core.Run, name string, idx int, rng *rand.Rand) 
 				return
 			}
 		}
+		// --- a competing VALID proposal for this height is validated first and never committed: what it left in the working
+		// state must not leak into the validation or the commit of the block that is certified (no FSM reset in between, as
+		// after a NEW_COMMITTEE reset of the BFT, which restarts the round but does not reset the FSM) ---
+		if b%3 == 1 {
+			var alt [][]byte
+			for i := 0; i < 3; i++ {
+				if ti := w.RandomTx(); ti != nil {
+					alt = append(alt, ti.Bytes)
+				}
+			}
+			if p2, e2 := ch.Propose(1-proposer, alt, nil); e2 == nil && !bytes.Equal(p2.BlockBytes, p.BlockBytes) {
+				for _, i := range []int{X, Y} {
+					if _, e := ch.Validate(i, p2, nil); e != nil {
+						fail("honest-proposal-rejected", h, map[string]any{"node": i, "error": e.Error(), "which": "competing proposal"})
+						return
+					}
+				}
+				run.Count("competing_valid_proposals_validated_then_dropped", 1)
+			}
+		}
 		// --- both nodes: the honest block ---
 		var results [2]*lib.BlockResult
 		for _, i := range []int{X, Y} {
